@@ -1426,11 +1426,66 @@ impl ArrayObject {
     }
 }
 
+/// A value in transit through a channel. It owns all of its data, so it does not point into the
+/// heap of the task that wrote it and stays valid after that task's heap is collected or freed.
+enum ChannelMessage {
+    Scalar(Value),
+    String(String),
+    Struct(Vec<ChannelMessage>),
+    Array(Vec<ChannelMessage>),
+    Variant(u16, Box<ChannelMessage>),
+    Channel(ChannelQueue),
+}
+
+type ChannelQueue = Arc<Mutex<VecDeque<ChannelMessage>>>;
+
+impl ChannelMessage {
+    fn from_value(val: Value, vm: &mut VmGreenThread) -> Self {
+        match val.1 {
+            ValueTag::Int | ValueTag::Float | ValueTag::Bool | ValueTag::Addr => Self::Scalar(val),
+            ValueTag::String => Self::String(val.view_string(vm).to_string()),
+            ValueTag::Struct => {
+                let fields = val.get_struct(vm).get_fields();
+                Self::Struct(fields.iter().map(|f| Self::from_value(*f, vm)).collect())
+            }
+            ValueTag::Array => {
+                let elems = &val.get_array(vm).data;
+                Self::Array(elems.iter().map(|e| Self::from_value(*e, vm)).collect())
+            }
+            ValueTag::Variant => {
+                let variant = val.get_variant(vm);
+                Self::Variant(variant.tag, Box::new(Self::from_value(variant.val, vm)))
+            }
+            ValueTag::Channel => Self::Channel(unsafe { val.get_channel(vm) }.data.clone()),
+        }
+    }
+
+    fn into_value(self, vm: &mut VmGreenThread) -> Value {
+        match self {
+            Self::Scalar(val) => val,
+            Self::String(s) => StringObject::new(s, vm).into(),
+            Self::Struct(fields) => {
+                let fields = fields.into_iter().map(|f| f.into_value(vm)).collect();
+                StructObject::new(fields, vm).into()
+            }
+            Self::Array(elems) => {
+                let elems = elems.into_iter().map(|e| e.into_value(vm)).collect();
+                ArrayObject::new(elems, vm).into()
+            }
+            Self::Variant(tag, val) => {
+                let val = val.into_value(vm);
+                EnumObject::new(tag, val, vm).into()
+            }
+            Self::Channel(data) => ChannelObject::new_with_data(vm, data).into(),
+        }
+    }
+}
+
 #[repr(C)]
 struct ChannelObject {
     header: ObjectHeader,
     // TODO: instead of Arc Mutex VecDeque there's probably something much better
-    data: Arc<Mutex<VecDeque<Value>>>,
+    data: ChannelQueue,
 }
 
 impl ChannelObject {
@@ -1438,10 +1493,7 @@ impl ChannelObject {
         ChannelObject::new_with_data(vm, Arc::new(Mutex::new(VecDeque::new())))
     }
 
-    fn new_with_data(
-        vm: &mut VmGreenThread,
-        data: Arc<Mutex<VecDeque<Value>>>,
-    ) -> *mut ChannelObject {
+    fn new_with_data(vm: &mut VmGreenThread, data: ChannelQueue) -> *mut ChannelObject {
         let header = ObjectHeader {
             kind: ObjectKind::Channel,
             visited: match &vm.gc_state {
@@ -1465,23 +1517,19 @@ impl ChannelObject {
         chan
     }
 
-    fn read_value(&self) -> Option<Value> {
+    fn read_value(&self) -> Option<ChannelMessage> {
         let mut data = self.data.lock().unwrap();
         // TODO: it would be better to put this thread to sleep instead of constantly trying and failing to read from the channel
         data.pop_front()
     }
 
-    fn write_value(&self, val: Value) {
+    fn write_value(&self, val: ChannelMessage) {
         let mut data = self.data.lock().unwrap();
         data.push_back(val);
     }
 
     fn copy(&self, vm: &mut VmGreenThread) -> Value {
         ChannelObject::new_with_data(vm, self.data.clone()).into()
-    }
-
-    fn header_ptr(&mut self) -> *mut ObjectHeader {
-        self as *mut Self as *mut ObjectHeader
     }
 
     fn nbytes(&self) -> usize {
@@ -2235,7 +2283,7 @@ impl VmGreenThread {
                 let read_val = chan_obj.read_value();
                 match read_val {
                     Some(read_val) => {
-                        let read_val = read_val.deep_copy(self);
+                        let read_val = read_val.into_value(self);
                         self.push(read_val)
                     } // TODO: use registers
                     None => {
@@ -2248,10 +2296,8 @@ impl VmGreenThread {
                 let val = self.pop(); // TODO: use registers
                 let chan = self.pop(); // TODO: use registers
                 let chan = unsafe { chan.get_channel_mut(self) };
-
-                // TODO: write_barrier not necessary
-                self.write_barrier(chan.header_ptr(), val);
-                chan.write_value(val);
+                let message = ChannelMessage::from_value(val, self);
+                chan.write_value(message);
             }
             Instr::ConstructStruct(n) => self.construct_struct(n as usize),
             Instr::ConstructArray(n) => self.construct_array(n as usize),
@@ -2570,11 +2616,8 @@ impl VmGreenThread {
                 }
                 ObjectKind::Channel => {
                     let obj = unsafe { &*(header_ptr as *const ChannelObject) };
+                    // queued messages own their data and hold no references into any heap
                     *batch = batch.saturating_sub(obj.nbytes());
-                    let data = obj.data.lock().unwrap();
-                    for elem in data.iter() {
-                        Self::mark(elem, &mut self.gray_stack, self.gc_visited);
-                    }
                 }
             }
         }
